@@ -104,6 +104,18 @@ pub fn gen(tier: &str, rng: &mut Rng, out: &mut Vec<String>) {
         for b in [3 + m - 1, 3 + m, 3 + m / 2] { out.push(format!("c17.split {} 0 {} t:t:t", hexd(&sc), b)); }
         out.push(format!("c17.split {} 0 {},{} t:t:t", hexd(&sc), 3 + m / 2, 3 + m));
     }
+    // integer literals of the interpreter sources (and their neighbours, up to 1100) as the number of items carried across a
+    // split on either stack
+    for v in crate::harvest::ints(&["script/interpreter.rs", "script/stack.rs", "script/mod.rs"], 1100) {
+        let n = v as usize; if n == 0 { continue; }
+        let mut sc = vec![];
+        for i in 0..n { sc.push(0x51 + (i % 16) as u8); sc.push(0x6b); }
+        sc.push(0x6c); sc.push(0x74);
+        out.push(format!("c17.split {} 0 {} t:t:t", hexd(&sc), 2 * n));
+        let mut sc: Vec<u8> = (0..n).map(|i| 0x51 + (i % 16) as u8).collect();
+        sc.push(0x74); sc.push(0x75);
+        out.push(format!("c17.split {} 0 {} t:t:t", hexd(&sc), n));
+    }
     // code separator executed in an earlier segment, signature check in a later one (recorded finding)
     out.push("c17.split 5151ab61ac 0 4 t:t:t".to_string());
     out.push("c17.split 5151ab61ac 0 3 t:t:t".to_string());
